@@ -337,3 +337,102 @@ Proof.
   - intros k v [E|Hk]; [|apply V; exact Hk]. inversion E; subst. split; [reflexivity|].
     apply H. eapply lookup_in. exact L.
 Qed.
+
+(* ---- wave 5: SinglePositioningDFXPWriter ------------------------------------------------------------------------- *)
+Lemma oset_add_twice : forall p s, oset_add p (oset_add p s) = oset_add p s.
+Proof.
+  intros [[[c cr] b]|] s; [|reflexivity]. unfold oset_add at 2.
+  destruct (existsb (fun x => fst x =? c) s) eqn:E.
+  - unfold oset_add. rewrite E. reflexivity.
+  - unfold oset_add. rewrite existsb_app, E. cbn [existsb fst]. rewrite Z.eqb_refl. reflexivity.
+Qed.
+Lemma fold_nodes_single : forall p (ns : list rnode) s, Forall (fun n => rn_layout n = p) ns ->
+  fold_left (fun s n => oset_add (rn_layout n) s) ns (oset_add p s) = oset_add p s.
+Proof.
+  intros p ns s F. induction F as [|n t Hn Ht IH]; [reflexivity|]. cbn [fold_left]. rewrite Hn, oset_add_twice. exact IH.
+Qed.
+Definition cap_single (p : lay) (c : rcap) : Prop := rc_layout c = p /\ Forall (fun n => rn_layout n = p) (rc_nodes c).
+Lemma fold_caps_single : forall p (cs : list rcap) s, Forall (cap_single p) cs ->
+  fold_left (fun s c => fold_left (fun s n => oset_add (rn_layout n) s) (rc_nodes c) (oset_add (rc_layout c) s)) cs (oset_add p s)
+  = oset_add p s.
+Proof.
+  intros p cs s F. induction F as [|c t [Hc Hn] Ht IH]; [reflexivity|]. cbn [fold_left].
+  rewrite Hc, oset_add_twice, (fold_nodes_single p _ s Hn). exact IH.
+Qed.
+Definition lang_single (p : lay) (l : rlang) : Prop := rl_layout l = p /\ Forall (cap_single p) (rl_caps l).
+Definition lang_step (s : list (Z * bool)) (l : rlang) : list (Z * bool) :=
+  fold_left (fun s c => fold_left (fun s n => oset_add (rn_layout n) s) (rc_nodes c) (oset_add (rc_layout c) s))
+            (rl_caps l) (oset_add (rl_layout l) s).
+Lemma fold_langs_single : forall p (ls : list rlang) s, Forall (lang_single p) ls ->
+  fold_left lang_step ls (oset_add p s) = oset_add p s.
+Proof.
+  intros p ls s F. induction F as [|l t [Hl Hc] Ht IH]; [reflexivity|]. cbn [fold_left]. unfold lang_step at 2.
+  rewrite Hl, oset_add_twice, (fold_caps_single p _ s Hc). exact IH.
+Qed.
+
+Lemma single_langs : forall p d, Forall (lang_single p) (rs_langs (to_rset (single_positioning p d))).
+Proof.
+  intros p d. unfold to_rset, single_positioning. cbn [ds_langs rs_langs]. rewrite map_map. apply Forall_forall. intros l Hl.
+  apply in_map_iff in Hl. destruct Hl as [l0 [<- _]]. split; [reflexivity|]. cbn [dl_caps rl_caps]. rewrite map_map.
+  apply Forall_forall. intros c Hc. apply in_map_iff in Hc. destruct Hc as [c0 [<- _]]. split; [reflexivity|].
+  cbn [dc_nodes rc_nodes]. rewrite map_map. apply Forall_forall. intros n Hn. apply in_map_iff in Hn.
+  destruct Hn as [n0 [<- _]]. reflexivity.
+Qed.
+
+(* the region map of a single-positioning set sends the positioning to `single_region` *)
+Lemma single_region_of : forall p d, rs_langs (to_rset (single_positioning p d)) <> [] ->
+  region_of (region_map (to_rset (single_positioning p d))) p = single_region p.
+Proof.
+  intros p d NE. unfold region_map, collect_unique.
+  change (fun s l => fold_left (fun s0 c => fold_left (fun s1 n => oset_add (rn_layout n) s1) (rc_nodes c) (oset_add (rc_layout c) s0))
+                               (rl_caps l) (oset_add (rl_layout l) s)) with lang_step.
+  pose proof (single_langs p d) as F. destruct (rs_langs (to_rset (single_positioning p d))) as [|l t]; [congruence|].
+  inversion F as [|? ? Hx Ft]; subst. destruct Hx as [Hl Hc]. cbn [fold_left]. unfold lang_step at 2. rewrite Hl.
+  rewrite (fold_caps_single p _ [] Hc), (fold_langs_single p t [] Ft).
+  destruct p as [[[c cr] b]|]; [|reflexivity]. cbn [oset_add existsb app filter fst]. unfold region_of, single_region.
+  destruct (c =? 0) eqn:E0; cbn [negb filter create_regions app map_get].
+  - destruct (0 =? c); destruct cr; reflexivity.
+  - assert (E1 : (0 =? c) = false) by lia.
+    destruct cr; cbn [create_regions app map_get]; rewrite ?Z.eqb_refl, ?E1; reflexivity.
+Qed.
+
+Lemma pick_single : forall p a b, (a = None \/ a = p) -> (b = None \/ b = p) -> pick a b p p = p.
+Proof. intros p a b [->| ->] [->| ->]; unfold pick; cbn [truthy]; destruct (truthy p); reflexivity. Qed.
+
+(* every region= of a single-positioning document names the one region *)
+Theorem single_refs : forall p d r, In r (all_refs (to_rset (single_positioning p d))) -> r = single_region p.
+Proof.
+  intros p d r H.
+  assert (NE : rs_langs (to_rset (single_positioning p d)) <> []).
+  { intros E. unfold all_refs, refs in H. rewrite E in H. destruct H. }
+  pose proof (single_region_of p d NE) as R. pose proof (single_langs p d) as F.
+  unfold all_refs, refs in H. apply in_flat_map in H. destruct H as [dv [Hd Hr]].
+  apply in_map_iff in Hd. destruct Hd as [l [<- Hl]]. rewrite Forall_forall in F. destruct (F l Hl) as [El Fc].
+  assert (Es : rs_layout (to_rset (single_positioning p d)) = p) by reflexivity.
+  cbn [fst snd] in Hr. rewrite El, Es in Hr. destruct Hr as [<-|Hr].
+  - rewrite pick_single by auto. exact R.
+  - apply in_flat_map in Hr. destruct Hr as [pp [Hp Hr]]. apply in_map_iff in Hp. destruct Hp as [c [<- Hc]].
+    rewrite Forall_forall in Fc. destruct (Fc c Hc) as [Ec Fn]. cbn [fst snd] in Hr. rewrite Ec in Hr. destruct Hr as [<-|Hr].
+    + rewrite pick_single by auto. exact R.
+    + apply in_map_iff in Hr. destruct Hr as [n [<- Hn]]. apply filter_In in Hn. destruct Hn as [Hn _].
+      rewrite Forall_forall in Fn. rewrite (Fn n Hn). rewrite pick_single by auto. exact R.
+Qed.
+
+(* consistency of the single-positioning writer's documents on a domain phrased on the INPUT: style ids distinct and no
+   written style named like the one region ("bottom", or "r0" when the positioning creates a region of its own) *)
+Theorem single_doc_consistent : forall p d, dom_single p d = true ->
+  let s := summarize (single_positioning p d) in
+  ok_refs (s_ids s) (s_style_ids s) (s_region_ids s) (s_style_refs s) (s_region_refs s) = 0.
+Proof.
+  intros p d D. apply doc_consistent. unfold dom_single in D. apply andb_prop in D. destruct D as [D1 D2].
+  unfold dom_doc. apply andb_true_intro. split.
+  - unfold single_positioning. cbn [ds_styles]. rewrite map_map. cbn [fst]. exact D1.
+  - rewrite forallb_forall in D2. apply forallb_forall. intros w Hw. specialize (D2 w Hw).
+    apply negb_true_iff. apply not_true_is_false. intros C. apply existsb_str_In in C.
+    assert (S : s_region_ids (summarize (single_positioning p d))
+                = map region_id_str (defined (to_rset (single_positioning p d)))).
+    { unfold summarize. destruct (styling (ds_styles (single_positioning p d))). reflexivity. }
+    rewrite S in C. apply in_map_iff in C. destruct C as [x [Ex Hx]].
+    apply no_unreferenced_region in Hx. apply single_refs in Hx. subst x. subst w.
+    rewrite str_eqb_refl' in D2. discriminate.
+Qed.
